@@ -9,7 +9,7 @@
    NOT verified (modelled): threading.RLock itself, the GIL, atomicity of a single Python read. *)
 From Coq Require Import List ZArith Bool Arith.
 From NTGen Require Import Generated.
-From NT Require Import Sx RLock Skeleton RLockProofs SkeletonProofs CaseLock.
+From NT Require Import Sx RLock Skeleton RLockProofs SkeletonProofs NonReentrant CaseLock.
 Import ListNotations.
 
 (* ---------------- the machine, all schedules ---------------- *)
@@ -181,6 +181,27 @@ Proof.
   apply snapshot_one_version; [exact F|rewrite Ht; exact W|rewrite Ht; exact O].
 Qed.
 Print Assumptions C18_snapshot_operations_honour_lock.
+
+(* ---------------- why LOCK_IS_RLOCK matters ---------------- *)
+
+(* the same machine with a plain lock (Acq enabled only when free): a thread that reaches an Acq
+   while it owns the lock stays there under EVERY schedule, holding the lock for ever *)
+Theorem C18_plain_lock_self_deadlock : forall t sched s, self_blocked t s ->
+  self_blocked t (run_nr sched s) /\ finished (run_nr sched s) = false.
+Proof. exact nr_self_deadlock. Qed.
+Print Assumptions C18_plain_lock_self_deadlock.
+
+(* ... which is where the generated unfolding of TypedTree.save gets after two ticks, while the
+   re-entrant machine completes it *)
+Example C18_plain_lock_deadlocks_typed_save :
+  let p := [EAcq; ERead; EAcq; ERead; ERel; ERel] in
+  In p (flat_map (expansions SNAPSHOT_PROGS 2) prog_typed_save) /\
+  self_blocked 0 (run_nr [0; 0] (init [p])) /\
+  finished (run [0; 0; 0; 0; 0; 0] (init [p])) = true.
+Proof.
+  split; [vm_compute; tauto|]. split; [|vm_compute; reflexivity].
+  split; [vm_compute; reflexivity|]. eexists. vm_compute. reflexivity.
+Qed.
 
 (* ---------------- non-vacuity ---------------- *)
 
